@@ -68,6 +68,7 @@ type c15Case struct {
 	Seqs    []uint64 `json:"seqs"`
 	NSeqBig int      `json:"nseqbig"` // if > 0: that many sequences (derived), ignoring Seqs
 	Guards  []int    `json:"guards"`  // pool key index; negative = malformed pubkey string
+	PkStyle int      `json:"pkstyle,omitempty"` // how the guardian keys are spelled (0 = all "0x" + checksummed hex)
 	Upg     int      `json:"upg"`     // contract-upgrade payload form: 0 raw hex, 1 code only, 2 code+state
 	ViaRPC  bool     `json:"viarpc"`
 }
@@ -113,6 +114,18 @@ func (c c15Case) message() *nodev1.GovernanceMessage {
 		gs := &nodev1.GuardianSetUpgrade{}
 		for i, g := range c.Guards {
 			pk := vh.Addr(abs15(g)).Hex()
+			// the same 20 bytes can be written with or without prefix and in either case; every spelling the
+			// validation accepts names the same key (the shipped guardian configs use the bare form)
+			if c.PkStyle > 0 {
+				switch (c.PkStyle + i*(1+c.PkStyle/4)) % 4 {
+				case 1:
+					pk = strings.ToLower(pk[2:])
+				case 2:
+					pk = "0X" + strings.ToUpper(pk[2:])
+				case 3:
+					pk = pk[2:]
+				}
+			}
 			if g < 0 {
 				pk = pk[:len(pk)-1-abs15(g)%3]
 			}
@@ -513,6 +526,9 @@ func genC15(t *rapid.T) c15Case {
 				g = -g
 			}
 			c.Guards = append(c.Guards, g)
+		}
+		if rapid.Bool().Draw(t, "spelled") {
+			c.PkStyle = rapid.IntRange(1, 16).Draw(t, "pkstyle")
 		}
 	case 4, 6:
 		c.Upg = rapid.IntRange(0, 2).Draw(t, "upg")
